@@ -275,7 +275,13 @@ func (wb *memWriteBatch) Merge(key []byte, value []byte) {
 		}
 		var err error
 		if oldV == nil {
-			oldV, err = wb.db.GetBytesNoLock(key)
+			// read the value as of this batch (committed data plus the writes and deletes
+			// already in the batch): a merge after a delete in the same batch starts from empty
+			var v interface{}
+			_, v, err = wb.writer.First(key)
+			if err == nil && v != nil {
+				_, oldV, err = memdb.KVFromObject(v)
+			}
 		}
 		cur, err := GetRocksdbUint64(oldV, err)
 		if err != nil {
